@@ -69,6 +69,7 @@ def scenarios(ctx):
         steps += [{"op": "serve", "mut": "none"} for _ in range(2)]
         out.append({"id": "zero-%d" % i, "cfg": {"subject": subject, "table": i}, "steps": steps})
     out += R.add_family(rng, quick, serve=True)
+    out += R.refused_family(rng, quick, subjects=("rr", "rb"))
     # the rebalancer at work: meters that are always ready and rate their servers differently at every request, one-second
     # back-off, the clock moving between requests - weights are adjusted and converge back all the time while servers are
     # drained (weight 0), re-weighted, removed and re-added through the rebalancer
